@@ -184,6 +184,35 @@ Theorem C16_grid_neighbors_nodup_generic : forall dims v,
 Proof. exact grid_neighbors_nodup_generic. Qed.
 Print Assumptions C16_grid_neighbors_nodup_generic.
 
+(* the statement of C16_grid_neighbors_spec_2d/3d for every D, and with it the two cut theorems:
+   the Grid's edge cut is the number of lattice edges joining different parts, its lambda cut is
+   the definition over the lattice graph -- in every dimension *)
+Theorem C16_grid_neighbors_adjacent_pos_generic : forall dims v u,
+  Forall (fun s => 0 < s)%nat dims -> (v < grid_len dims)%nat ->
+  (In u (grid_neighbors dims v)
+   <-> (u < grid_len dims)%nat /\ adjacent_pos (position_of dims v) (position_of dims u) = true).
+Proof. exact grid_neighbors_adjacent_pos_generic. Qed.
+Print Assumptions C16_grid_neighbors_adjacent_pos_generic.
+
+Theorem C16_adjacent_pos_generic : forall p q,
+  adjacent_pos p q = true
+  <-> exists a c c', nth_opt p a = Some c /\ (c + 1 = c' \/ c' + 1 = c)%nat /\ q = set_nth p a c'.
+Proof. exact adjacent_pos_iff. Qed.
+Print Assumptions C16_adjacent_pos_generic.
+
+Theorem C16_grid_cut_is_lattice_cut_generic : forall dims p,
+  Forall (fun s => 0 < s)%nat dims -> (grid_len dims <= length p)%nat ->
+  grid_edge_cut dims p = Ok (lattice_cut dims p).
+Proof. exact grid_cut_is_lattice_cut_generic. Qed.
+Print Assumptions C16_grid_cut_is_lattice_cut_generic.
+
+Theorem C16_grid_lambda_def_generic : forall dims p ws k,
+  Forall (fun s => 0 < s)%nat dims -> (grid_len dims <= length p)%nat -> length ws = grid_len dims ->
+  Forall (fun q => (q < k)%nat) p ->
+  grid_lambda_cut dims p ws = Ok (lambda_def k (grid_rows dims) p ws).
+Proof. exact grid_lambda_def_generic. Qed.
+Print Assumptions C16_grid_lambda_def_generic.
+
 (* u is yielded by neighbors(v) iff u is a cell whose position differs from v's by exactly
    one on exactly one axis ([adjacent_pos]) *)
 Theorem C16_grid_neighbors_spec_2d : forall w h v u,
@@ -375,3 +404,10 @@ Example C16_nonvacuous_grid_neighbors_generic :
   /\ map (position_of [2; 3; 4; 5]%nat) [76; 75; 83; 53; 101]%nat
      = [[0; 2; 0; 3]; [1; 1; 0; 3]; [1; 2; 1; 3]; [1; 2; 0; 2]; [1; 2; 0; 4]]%nat.
 Proof. vm_compute. split; reflexivity. Qed.
+
+(* a 2x2x2x2 grid (hypercube): 32 lattice edges, the parity partition cuts all of them *)
+Example C16_nonvacuous_grid_cut_generic :
+  let par := map (fun v => ((v + v / 2 + v / 4 + v / 8) mod 2)%nat) (seq 0 16) in
+  grid_edge_cut [2; 2; 2; 2]%nat par = Ok 32 /\ lattice_cut [2; 2; 2; 2]%nat par = 32
+  /\ grid_edge_cut [2; 2; 2; 2]%nat (map (fun v => (v / 8)%nat) (seq 0 16)) = Ok 8.
+Proof. vm_compute. repeat split; reflexivity. Qed.
